@@ -100,6 +100,50 @@ def stencil_hess(seed, k, eps, zmask, container='list'):
             'one_sided': one, 'maxerr': float(err.max())}
 
 
+def stencil_cubic(seed, k, eps, zmask, container='list'):
+    """get_hess on a random cubic polynomial.  A difference quotient whose truncation error is O(eps^2) is exact for cubics
+    (the error terms start at fourth derivatives), so every element H[i][j] whose two parameters are of ordinary size -- the
+    elements for which the statement promises O(eps^2) -- must equal the exact second derivative up to round-off, whatever
+    the other parameters are (zero, tiny, negative).  Elements that involve a zero / tiny parameter use one-sided
+    stencils, which are first order: for those only |error| <= 4 * h * (sum of |third derivatives|) is required."""
+    from dadi import Godambe
+    A, b, c = _quad(seed, k)
+    rs = np.random.RandomState(seed + 991)
+    C3 = rs.uniform(-1, 1, size=(k, k, k))
+    C3 = sum(np.transpose(C3, perm) for perm in ((0, 1, 2), (0, 2, 1), (1, 0, 2), (1, 2, 0), (2, 0, 1), (2, 1, 0))) / 6.0
+    p0 = _p0(seed, k, eps, zmask, container.startswith('int'))
+    pts_seen = []
+
+    def f(p):
+        p = np.array(p, dtype=float)
+        pts_seen.append(p)
+        return float(0.5 * np.dot(p, np.dot(A, p)) + np.dot(b, p) + c + np.einsum('ijk,i,j,k->', C3, p, p, p))
+    arg = _contain(p0, container)
+    H = Godambe.get_hess(f, arg, eps)
+    side = _one_sided_respected(p0, eps, pts_seen)
+    if side:
+        return {'ok': False, 'what': 'get_hess: ' + side, 'k': k, 'eps': eps, 'p0': p0}
+    h, one = _steps(p0, eps)
+    want = A + 6.0 * np.einsum('ijk,k->ij', C3, np.array(p0))
+    span = np.abs(np.array(p0)) + 2 * np.abs(h)
+    fmax = (0.5 * np.dot(span, np.dot(np.abs(A), span)) + np.dot(np.abs(b), span) + abs(c)
+            + np.einsum('ijk,i,j,k->', np.abs(C3), span, span, span))
+    round_off = 64 * EPSM * fmax / np.outer(np.abs(h), np.abs(h)) + 1e-300
+    third = 6.0 * np.abs(C3).sum()
+    err = np.abs(H - want)
+    worst, bad = 0.0, None
+    for i in range(k):
+        for j in range(k):
+            central = not one[i] and not one[j]
+            bound = round_off[i, j] if central else round_off[i, j] + 4.0 * max(abs(h[i]), abs(h[j])) * third
+            r = err[i, j] / bound
+            if r > worst:
+                worst, bad = float(r), (i, j, bool(central))
+    return {'ok': bool(worst <= 1.0) and H.shape == (k, k), 'ratio': worst, 'element': bad,
+            'what': 'get_hess on a cubic: second-order (exact) where both parameters are of ordinary size, first order elsewhere',
+            'k': k, 'eps': eps, 'p0': p0, 'one_sided': one, 'maxerr': float(err.max())}
+
+
 def stencil_grad(seed, k, eps, zmask, container='list', two_pt=False):
     """get_grad: exact for quadratics where the central difference is used, exact for linear functions under
     one-sided differences.  A function quadratic in the centrally-differenced coordinates and linear in the
@@ -498,6 +542,7 @@ def chi2(xs, weights, as_array):
 def register():
     OPS.reg('C19.stencil_hess', stencil_hess, group='c19')
     OPS.reg('C19.stencil_grad', stencil_grad, group='c19')
+    OPS.reg('C19.stencil_cubic', stencil_cubic, group='c19')
     OPS.reg('C19.closed_form', closed_form, group='c19')
     OPS.reg('C19.perm', perm_invariance, group='c19')
     OPS.reg('C19.chi2', chi2, group='c19')
